@@ -218,6 +218,12 @@ func (a *pwaligner) fillMatrix_SW() (err error) {
 		} else {
 			a.maxa[j] = a.matrix[0][j] + a.gapopen
 		}
+		// The best score may be in the first row
+		if a.matrix[0][j] > a.maxscore {
+			a.maxscore = a.matrix[0][j]
+			a.maxi = 0
+			a.maxj = j
+		}
 	}
 
 	// First column
@@ -244,6 +250,12 @@ func (a *pwaligner) fillMatrix_SW() (err error) {
 		} else {
 			a.matrix[i][0] = 0.0
 			a.trace[i][0] = ALIGN_DIAG // TO REVIEW
+		}
+		// The best score may be in the first column
+		if a.matrix[i][0] > a.maxscore {
+			a.maxscore = a.matrix[i][0]
+			a.maxi = i
+			a.maxj = 0
 		}
 	}
 
